@@ -46,13 +46,15 @@ type Org struct {
 }
 
 type originCtx struct {
-	p     *Prog
-	memo  map[ssa.Value]*Org
-	stack map[ssa.Value]bool
+	p         *Prog
+	memo      map[ssa.Value]*Org
+	stack     map[ssa.Value]bool
+	allocMemo map[*ssa.Alloc]*Org
+	allocBusy map[*ssa.Alloc]bool
 }
 
 func (p *Prog) newOriginCtx() *originCtx {
-	return &originCtx{p: p, memo: map[ssa.Value]*Org{}, stack: map[ssa.Value]bool{}}
+	return &originCtx{p: p, memo: map[ssa.Value]*Org{}, stack: map[ssa.Value]bool{}, allocMemo: map[*ssa.Alloc]*Org{}, allocBusy: map[*ssa.Alloc]bool{}}
 }
 
 var globalOrigins *originCtx
@@ -340,6 +342,20 @@ func (c *originCtx) cellWriters(addr ssa.Value, seen map[ssa.Value]bool, out *[]
 }
 
 func (c *originCtx) allocContent(a *ssa.Alloc, at *ssa.UnOp, d int) *Org {
+	if o, ok := c.allocMemo[a]; ok {
+		return o
+	}
+	if c.allocBusy[a] || d > maxOriginDepth {
+		return &Org{Kind: "unknown", Val: a, str: "self"}
+	}
+	c.allocBusy[a] = true
+	o := c.allocContent1(a, at, d)
+	delete(c.allocBusy, a)
+	c.allocMemo[a] = o
+	return o
+}
+
+func (c *originCtx) allocContent1(a *ssa.Alloc, at *ssa.UnOp, d int) *Org {
 	var ws []cellWriter
 	c.cellWriters(a, map[ssa.Value]bool{}, &ws)
 	o := &Org{Kind: "phi", Val: a}
